@@ -140,6 +140,7 @@ func (m *collection) Close() error {
 	if !m.options.ReadOnly {
 		m.m.Unlock()
 
+		verifAt("close.stopping", m)
 		<-m.doneMergerCh
 		atomic.AddUint64(&m.stats.TotCloseMergerDone, 1)
 
@@ -334,6 +335,7 @@ func (m *collection) ExecuteBatch(bIn Batch,
 
 	// Notify handlers that we are about to execute a batch.
 	m.fireEvent(EventKindBatchExecuteStart, 0)
+	verifAt("exec.sorted", m)
 
 	m.m.Lock()
 
@@ -370,6 +372,7 @@ func (m *collection) ExecuteBatch(bIn Batch,
 
 	m.m.Unlock()
 
+	verifAt("exec.installed", m)
 	prevStackDirtyTop.Close()
 
 	if waitDirtyIncomingCh != nil {
